@@ -739,6 +739,12 @@ func Document(t *rapid.T, o DocOpts) *DocCase {
 			outer = rapid.Permutation(outer).Draw(t, "urlfilter-outer")
 			u.Params.Filter = &jsonapi.Filter{Op: rapid.SampledFrom([]string{"and", "or"}).Draw(t, "urlfilter-op"), Val: outer[:rapid.IntRange(1, len(outer)).Draw(t, "urlfilter-n")]}
 		}
+		// A list may also be what a URL that is not a collection URL
+		// answers with (the URL is the caller's business; marshaling reads
+		// it and leaves it alone).
+		if rapid.IntRange(0, 7).Draw(t, "list-noncol-url") == 0 {
+			u.Fragments, u.ResID, u.IsCol = []string{tn, "x"}, "x", false
+		}
 	case len(c.Primary) == 1:
 		u.Fragments = []string{c.Primary[0].TS.Name, c.Primary[0].ID()}
 		u.ResType = c.Primary[0].TS.Name
